@@ -113,7 +113,7 @@ func cmdDump(args []string) {
 		os.Exit(1)
 	}
 	pats := strings.Split(*inl, ",")
-	cfg := EvalConfig{MaxVisits: *visits, InlineClosures: true, Inline: func(c *ssa.Function, depth int) bool {
+	cfg := EvalConfig{MaxVisits: *visits, InlineClosures: true, ResolveInvoke: resolveByStaticType, Inline: func(c *ssa.Function, depth int) bool {
 		if *inl == "" {
 			return false
 		}
